@@ -104,6 +104,9 @@ def gen_ops(tier, r):
     for s0, e0 in [(2**32 - 10**5, 2**32 + 10**5), (2**33 - 500, 2**33 + 500), (UMAX - 10**5, UMAX),
                    (UMAX - 30, UMAX), (UMAX - 1, UMAX), (MAXPRIME64 - 50, MAXPRIME64), (MAXPRIME64, MAXPRIME64 + 3)]:
         ops.append(("top-or-2^32", f"seg {s0} {e0} 16"))
+    # several segments ending at / near 2^64-1 (segmentLow/High saturation on the last segments)
+    for s0, e0 in [(UMAX - 600000, UMAX), (UMAX - 1100000, UMAX - 2), (UMAX - 700000, MAXPRIME64)]:
+        ops.append(("top-multi-segment", f"seg {s0} {e0} 16"))
     # 4. degenerate
     for s0, e0 in [(0, 0), (0, 6), (0, 720), (0, 721), (0, 722), (719, 727), (721, 721), (727, 727), (728, 728),
                    (800, 700), (UMAX, UMAX), (UMAX, 0), (1000, 1000), (997, 997)]:
